@@ -5,9 +5,11 @@ import (
 	"fmt"
 	"os"
 	"path/filepath"
+	"runtime"
 	"runtime/debug"
 	"sort"
 	"strings"
+	"time"
 
 	"github.com/ysugimoto/falco/v2/config"
 	icontext "github.com/ysugimoto/falco/v2/interpreter/context"
@@ -492,8 +494,38 @@ func genCrypto(emit func(Case)) {
 	}
 }
 
+// genInitFailure: programs that parse but are refused when the simulator initialises, each asked three times on one instance
+// (a request that ends early must leave the instance usable)
+func genInitFailure(emit func(Case)) {
+	be := "backend b1 { .host = \"example.com\"; .port = \"80\"; }\n"
+	recv := "sub vcl_recv { return(lookup); }\n"
+	progs := []struct {
+		label, main string
+		mods        map[string]string
+	}{
+		{"duplicate subroutine", be + "sub a { esi; }\nsub a { esi; }\n" + recv, nil},
+		{"duplicate backend", be + be + recv, nil},
+		{"duplicate table", be + "table t { \"k\": \"v\" }\ntable t { \"k\": \"w\" }\n" + recv, nil},
+		{"duplicate acl", be + "acl a { \"10.0.0.1\"; }\nacl a { \"10.0.0.2\"; }\n" + recv, nil},
+		{"director names unknown backend", be + "director d random { { .backend = nosuch; .weight = 1; } }\n" + recv, nil},
+		{"director shadows backend", be + "director b1 random { { .backend = b1; .weight = 1; } }\n" + recv, nil},
+		{"root include cycle", be + "include \"m\";\n" + recv, map[string]string{"m.vcl": "include \"m\";\n"}},
+		{"root include missing", be + "include \"nosuch\";\n" + recv, nil},
+		{"root include with syntax error", be + "include \"m\";\n" + recv, map[string]string{"m.vcl": "sub broken {\n  set req.http.A = ;\n}\n"}},
+		{"duplicate penaltybox", be + "penaltybox p { }\npenaltybox p { }\n" + recv, nil},
+		{"duplicate ratecounter", be + "ratecounter r { }\nratecounter r { }\n" + recv, nil},
+		{"no subroutine at all", be, nil},
+		{"empty program", "", nil},
+	}
+	reqs := []Request{{"GET", "http://example.com/a", nil}, {"GET", "http://example.com/a", nil}, {"POST", "http://example.com/b", nil}}
+	for _, p := range progs {
+		emit(Case{Kind: "serve", Main: p.main, Modules: p.mods, Requests: reqs, Label: "init-failure " + p.label})
+	}
+}
+
 func gen08(tier string, emit func(Case)) {
 	genAssign(emit)
+	genInitFailure(emit)
 	genCrypto(emit)
 	genConcat(emit)
 	genFunctions(tier, emit)
@@ -506,24 +538,76 @@ func gen08(tier string, emit func(Case)) {
 
 // ---------------------------------------------------------------------------
 
+// blockedAfter: a case normally takes milliseconds. One that has not returned after this long is looked at through the
+// goroutine dump: only a body that is *parked* on a lock, channel or wait group is reported (kind "blocked", a deadlock
+// that burns no fuel); a body that is still runnable is slow, not stuck, and the case is left undecided.
+const blockedAfter = 90 * time.Second
+
+var parkedStates = []string{"semacquire", "sync.Mutex.Lock", "sync.RWMutex.Lock", "sync.RWMutex.RLock", "chan receive", "chan send", "select", "sync.WaitGroup.Wait", "sync.Cond.Wait"}
+
 func guard(budget int64, f func()) (kind, site, msg string) {
-	defer func() {
-		fuel.Disarm()
-		if r := recover(); r != nil {
-			msg = fmt.Sprint(r)
-			st := string(debug.Stack())
-			kind = "panic"
-			site = engine.PanicSite(st)
-			if strings.HasPrefix(msg, fuel.Sentinel) {
-				kind = "nontermination"
-				site = "-"
+	type out struct{ kind, site, msg string }
+	done := make(chan out, 1)
+	go func() {
+		var o out
+		defer func() {
+			fuel.Disarm()
+			if r := recover(); r != nil {
+				o.msg = fmt.Sprint(r)
+				st := string(debug.Stack())
+				o.kind = "panic"
+				o.site = engine.PanicSite(st)
+				if strings.HasPrefix(o.msg, fuel.Sentinel) {
+					o.kind = "nontermination"
+					o.site = "-"
+				}
+			}
+			done <- o
+		}()
+		fuel.Arm(budget)
+		guardedBody(f)
+	}()
+	select {
+	case o := <-done:
+		return o.kind, o.site, o.msg
+	case <-time.After(blockedAfter):
+	}
+	buf := make([]byte, 4<<20)
+	buf = buf[:runtime.Stack(buf, true)]
+	for _, g := range strings.Split(string(buf), "\n\n") {
+		if !strings.Contains(g, "c08.guardedBody") {
+			continue
+		}
+		head := firstLine(g)
+		for _, st := range parkedStates {
+			if strings.Contains(head, "["+st) {
+				return "blocked", firstFalcoFrame(g), "the case is parked (" + strings.TrimSpace(head) + ") " + blockedAfter.String() + " after it started"
 			}
 		}
-	}()
-	fuel.Arm(budget)
-	f()
-	return
+		return "undecided", "-", "still running after " + blockedAfter.String() + ": " + strings.TrimSpace(head)
+	}
+	return "undecided", "-", "body goroutine not found in the dump"
 }
+
+// firstFalcoFrame: the innermost function of falco in a goroutine's stack
+func firstFalcoFrame(g string) string {
+	const mod = "github.com/ysugimoto/falco/v2/"
+	for _, l := range strings.Split(g, "\n") {
+		if strings.HasPrefix(l, mod) && !strings.Contains(l, "/zzverif/") {
+			f := strings.TrimPrefix(l, mod)
+			if i := strings.LastIndex(f, "("); i > 0 {
+				f = f[:i]
+			}
+			return f
+		}
+	}
+	return "-"
+}
+
+// guardedBody only gives the body's goroutine a recognisable frame
+//
+//go:noinline
+func guardedBody(f func()) { f() }
 
 func panicShape(msg string) string {
 	for _, p := range []string{"index out of range", "slice bounds out of range", "nil pointer dereference", "negative shift amount", "integer divide by zero", "interface conversion", "makeslice", "nil map"} {
@@ -559,6 +643,9 @@ func run(c Case) engine.Result {
 			runTester(c)
 		}
 	})
+	if kind == "undecided" {
+		return engine.Result{Skipped: true}
+	}
 	if kind != "" {
 		if c.Kind == "serve" && kind == "panic" {
 			// the stack was captured inside Observe
@@ -574,6 +661,9 @@ func run(c Case) engine.Result {
 		}
 		if kind == "nontermination" {
 			cls = "nontermination|" + c.Label
+		}
+		if kind == "blocked" {
+			cls = "blocked@" + site + "|" + strings.Join(strings.Fields(c.Label)[:min(2, len(strings.Fields(c.Label)))], " ")
 		}
 		return engine.Result{NonTrivial: true, Outcome: kind, Findings: []engine.Finding{{
 			Class: cls, What: fmt.Sprintf("%s (%s): %s", kind, c.Label, firstLine(msg)), Detail: c}}}
